@@ -565,4 +565,4 @@ def run(F, R, tier):
 
     # ---- K rules: the special-function kernels of gm2_dilog.cpp ------------------------------------------------------
     from .kernels import run_kernels
-    run_kernels(F, R)
+    R.guard(run_kernels, F, R)
